@@ -512,6 +512,21 @@ def native_replay(name, vals, profile="debug"):
     return dict(rc=rc, out=out, roles=roles, api=api)
 
 
+def native_search(name, count=200000):
+    """Witness search fallback (see replay --search): returns a value vector or None."""
+    exe = os.path.join(NATIVE_TARGET, "debug", "replay")
+    for seed in (1, 2, 3):
+        try:
+            p = subprocess.run([exe, "--search", name, str(count), str(seed)], capture_output=True, text=True,
+                               errors="replace", timeout=600)
+        except subprocess.TimeoutExpired:
+            continue
+        m = re.search(r"^FOUND: (.*)$", p.stdout, re.M)
+        if m:
+            return [[int(v[i:i + 2], 16) for i in range(0, len(v), 2)] for v in m.group(1).split()]
+    return None
+
+
 def save_cex(prop, h, vals, rep, failed):
     d = os.path.join(VERIF, "counterexamples")
     os.makedirs(d, exist_ok=True)
@@ -650,7 +665,18 @@ def check(prop, tier, only=None):
             # covers (for some failed checks Kani prints no vector of their own; any valid input
             # that makes the native replay fail is a genuine counterexample)
             tests = list(r.get("concrete_vals") or [])
-            failed = [f["desc"] for f in r.get("parsed", {}).get("failed", [])]
+            failed = [f["desc"] for f in r.get("parsed", {}).get("failed", [])] or [
+                f["desc"] for f in results[h["name"]].get("parsed", {}).get("failed", [])
+            ]
+            if r["outcome"] != "fail" or not tests:
+                # Kani sometimes prints no concrete vector (or runs out of memory building the
+                # trace).  The solver verdict of the first run stands; look for *some* input the
+                # native replay fails on (biased pseudo-random search in the replay binary).
+                found = native_search(h["name"])
+                log("    %s: no vector from Kani (%s); native witness search %s" % (h["name"], r.get("detail", r["outcome"]), "found one" if found else "found nothing"))
+                if found:
+                    tests = [("search", "native witness search", found)]
+                    r["outcome"] = "fail"
             if r["outcome"] != "fail" or not tests:
                 inconclusive.append((h["name"], "counterexample extraction failed: %s" % r.get("detail", r["outcome"])))
                 continue
